@@ -76,6 +76,10 @@ RawV1OK(raw, L, P, N, TL, M, TI) ==
     /\ \A r \in tk : r[2] = TI[r[1]].path /\ r[3] = TI[r[1]].base
     /\ \A r \in ToSet(raw.md) : r[2] = 13 => (r[1] \in TL /\ r[3] = TI[r[1]].ext)
     /\ \A r \in ToSet(raw.mdall) \cup ToSet(raw.mdi) \cup ToSet(raw.perf) : r[1] \in TL
+    \* from 1.9.1 the four crate tables are views over List* tables: no membership row may outlive its list
+    \* (the CrateTrackList view joins to List and would hide such a row until the list id is handed out again)
+    /\ "list" \in DOMAIN raw =>
+          \A x \in ToSet(raw.ltl) : \E r \in ToSet(raw.list) : r[1] = x[1] /\ r[2] = x[2]
     \* trackCount maintained by triggers (from 1.11.1)
     /\ "list" \in DOMAIN raw =>
           \A r \in ToSet(raw.list) :
